@@ -1,8 +1,16 @@
 /-
 Props/C04 — Balanced-parentheses navigation matches its linear-scan definition.
 Property theorems only; helper lemmas live in Proof/BP*.lean.
+
+Conventions.  `construct simd owned ws len k` is any of the constructors of `BalancedParens`
+(`owned`: `new*` vs `from_words*`; `k`: NoSelect / WithSelect / WithCsPoppy at any rate; `simd`:
+scalar or SSE4.1 L1/L2 builders); it is `none` exactly when the constructor panics (`len ≥ 2^32`).
+The domain is the constructors' documented one: `|ws| = ⌈len/64⌉` (any bits above `len` in the
+final word) and `len < 2^32`.  The right-hand sides are the linear-scan definitions of
+`Spec/BP.lean`, `Spec/BPNav.lean`, `Spec/Bits.lean` over `bitsOf ws len`, the first `len` bits.
 -/
 import SuccinctlyVerif.Proof.BPTables
+import SuccinctlyVerif.Proof.BPNavEq
 namespace SV.Props.C04
 open SV SV.BP SV.BPM
 
@@ -16,5 +24,102 @@ theorem byte_tables_eq :
   ⟨BPT.byteMin_eq, BPT.byteTot_eq, BPT.byteMaxRev_eq, BPT.byteFindClose_eq⟩
 
 example : BPT.specByteMin.getD 0b00001011 0 = -2 := by decide +kernel
+
+/-- Every constructor succeeds on its documented domain and the structure it builds is the model
+structure over the stored words (final word masked for owned storage). -/
+theorem construct_some (simd owned : Bool) (ws : List (BitVec 64)) (len : Nat) (k : SelKind) (hlen : len < 2 ^ 32) :
+    construct simd owned ws len k = some (mkBP simd (if owned then maskFinalWord ws len else ws) len k) := by
+  unfold construct buildOwned buildBorrowed build
+  have : ¬ len ≥ 2 ^ 32 := by omega
+  cases owned <;> simp [this]
+
+/-- `len ≥ 2^32` panics in every constructor (the documented `assert!`). -/
+theorem construct_panics (simd owned : Bool) (ws : List (BitVec 64)) (len : Nat) (k : SelKind) (hlen : 2 ^ 32 ≤ len) :
+    construct simd owned ws len k = none := by
+  unfold construct buildOwned buildBorrowed build
+  cases owned <;> simp [hlen]
+
+/-- The stored words denote the same first `len` bits as the given words, and there are as many. -/
+theorem stored_ok (owned : Bool) (ws : List (BitVec 64)) (len : Nat) (hw : ws.length = (len + 63) / 64) :
+    (if owned then maskFinalWord ws len else ws).length = (len + 63) / 64 ∧
+    bitsOf (if owned then maskFinalWord ws len else ws) len = bitsOf ws len := by
+  cases owned
+  · simp [hw]
+  · simp [BPR.maskFinalWord_length, BPR.bitsOf_maskFinalWord ws len hw, hw]
+
+/-- `rank1(p)` = number of opens among the first `p` bits (all of them for `p ≥ len`), for every
+constructor, select support, rate, build variant and any stray bits above `len`. The proof goes
+through the rank directory: absolute `u32` block ranks (lossless because `len < 2^32`) and the
+7 × 9-bit packed offsets (lossless because a block holds `WORDS_PER_RANK_BLOCK = 8` words, so an
+offset is at most 448 < 512). -/
+theorem rank1_eq (simd owned : Bool) (ws : List (BitVec 64)) (len : Nat) (k : SelKind) (p : Nat)
+    (hw : ws.length = (len + 63) / 64) (hlen : len < 2 ^ 32) :
+    (construct simd owned ws len k).map (fun I => I.rank1 p) = some (BP.rank1 (bitsOf ws len) p) := by
+  obtain ⟨h1, h2⟩ := stored_ok owned ws len hw
+  rw [construct_some simd owned ws len k hlen, Option.map_some, BPR.rank1_eq simd _ len k p h1 hlen, h2]; rfl
+
+example : (construct false false [0xFFFFFFFFFFFFFFCB#64] 6 .noSelect).map (fun I => I.rank1 4) = some 3 := by
+  decide +kernel
+
+/-- `rank0(p)` = number of closes among the first `p` bits. -/
+theorem rank0_eq (simd owned : Bool) (ws : List (BitVec 64)) (len : Nat) (k : SelKind) (p : Nat)
+    (hw : ws.length = (len + 63) / 64) (hlen : len < 2 ^ 32) :
+    (construct simd owned ws len k).map (fun I => I.rank0 p) = some (BP.rank0 (bitsOf ws len) p) := by
+  obtain ⟨h1, h2⟩ := stored_ok owned ws len hw
+  rw [construct_some simd owned ws len k hlen, Option.map_some, BPR.rank0_eq simd _ len k p h1 hlen, h2]; rfl
+
+example : (construct false true [0xFFFFFFFFFFFFFFCB#64] 6 .noSelect).map (fun I => I.rank0 9) = some 3 := by
+  decide +kernel
+
+/-- `excess(p)` = opens minus closes among positions `0..=p` (0 out of range), reduced to `i32`:
+the code computes it in wrapping `i32` from `rank1`, so for `2^31 ≤ len < 2^32` the mathematical
+value may not fit the return type. -/
+theorem excess_eq_wrap (simd owned : Bool) (ws : List (BitVec 64)) (len : Nat) (k : SelKind) (p : Nat)
+    (hw : ws.length = (len + 63) / 64) (hlen : len < 2 ^ 32) :
+    (construct simd owned ws len k).map (fun I => I.excess p) = some (wrapI32 (BP.excessAt (bitsOf ws len) p)) := by
+  obtain ⟨h1, h2⟩ := stored_ok owned ws len hw
+  rw [construct_some simd owned ws len k hlen, Option.map_some, BPR.excess_eq_wrap simd _ len k p h1 hlen, h2]
+
+/-- `excess(p)` is exactly the linear-scan excess whenever it fits the `i32` return type
+(`len < 2^31`). -/
+theorem excess_eq (simd owned : Bool) (ws : List (BitVec 64)) (len : Nat) (k : SelKind) (p : Nat)
+    (hw : ws.length = (len + 63) / 64) (hlen : len < 2 ^ 31) :
+    (construct simd owned ws len k).map (fun I => I.excess p) = some (BP.excessAt (bitsOf ws len) p) := by
+  obtain ⟨h1, h2⟩ := stored_ok owned ws len hw
+  rw [construct_some simd owned ws len k (by omega), Option.map_some, BPR.excess_eq simd _ len k p h1 hlen, h2]
+
+example : (construct false true [0x0#64] 8 .noSelect).map (fun I => I.excess 2) = some (-3) := by
+  decide +kernel
+
+/-- `depth(p)` = the excess at `p` cast `i32 as usize` (so a negative excess, possible only in
+unbalanced sequences, appears as `2^64 − |e|`, exactly as in the code), `none` out of range;
+`len < 2^31` as for `excess_eq`. -/
+theorem depth_eq (simd owned : Bool) (ws : List (BitVec 64)) (len : Nat) (k : SelKind) (p : Nat)
+    (hw : ws.length = (len + 63) / 64) (hlen : len < 2 ^ 31) :
+    (construct simd owned ws len k).map (fun I => I.depth p) = some (BP.depth (bitsOf ws len) p) := by
+  obtain ⟨h1, h2⟩ := stored_ok owned ws len hw
+  rw [construct_some simd owned ws len k (by omega), Option.map_some, BPR.depth_eq simd _ len k p h1 hlen, h2]
+
+example : (construct false true [0x0#64] 8 .noSelect).map (fun I => I.depth 0) = some (some 18446744073709551615) := by
+  decide +kernel
+
+/-- `is_open(p)` / `is_close(p)` read the bit at `p` (false out of range), also under stray bits. -/
+theorem is_open_eq (simd owned : Bool) (ws : List (BitVec 64)) (len : Nat) (k : SelKind) (p : Nat)
+    (hw : ws.length = (len + 63) / 64) (hlen : len < 2 ^ 32) :
+    (construct simd owned ws len k).map (fun I => (I.isOpen p, I.isClose p)) =
+      some (BP.isOpen (bitsOf ws len) p, BP.isClose (bitsOf ws len) p) := by
+  obtain ⟨h1, h2⟩ := stored_ok owned ws len hw
+  rw [construct_some simd owned ws len k hlen, Option.map_some, BPR.isOpen_eq simd _ len k p h1,
+    BPR.isClose_eq simd _ len k p h1, h2]
+
+/-- `first_child(p)` = `p + 1` when `p` and `p + 1` are both opens, else `none`. -/
+theorem first_child_eq (simd owned : Bool) (ws : List (BitVec 64)) (len : Nat) (k : SelKind) (p : Nat)
+    (hw : ws.length = (len + 63) / 64) (hlen : len < 2 ^ 32) :
+    (construct simd owned ws len k).map (fun I => I.firstChild p) = some (BP.firstChild (bitsOf ws len) p) := by
+  obtain ⟨h1, h2⟩ := stored_ok owned ws len hw
+  rw [construct_some simd owned ws len k hlen, Option.map_some, BPR.firstChild_eq simd _ len k p h1, h2]
+
+example : (construct true false [0xB#64] 6 (.csPoppy 3)).map (fun I => I.firstChild 0) = some (some 1) := by
+  decide +kernel
 
 end SV.Props.C04
